@@ -130,8 +130,12 @@ def axiom_audit(pid, modules, theorems):
     L = [f"import {m}" for m in modules] + ["import Lean", "open Lean Elab Command",
          "#eval show CommandElabM Unit from do",
          "  let env ← getEnv",
-         "  let n : Nat := env.constants.fold (fun (acc : Nat) name ci => if (`SasLexer).isPrefixOf name && (match ci with | .thmInfo _ => true | _ => false) then acc + 1 else acc) 0",
-         "  logInfo m!\"THEOREMS {(n : Nat)}\""]
+         "  let mut n : Nat := 0",
+         "  for (name, ci) in env.constants.toList do",
+         "    if (`SasLexer).isPrefixOf name && !name.isInternalDetail then",
+         "      if let .thmInfo _ := ci then",
+         "        if (← Lean.findDeclarationRanges? name).isSome then n := n + 1",
+         "  logInfo m!\"THEOREMS {n}\""]
     for t in theorems:
         L.append(f"#print axioms {t}")
     open(path, "w").write("\n".join(L) + "\n")
